@@ -146,7 +146,9 @@ def run_check(prop, tier, seed, workdir, args, t0):
 
     # vacuity guard: every boundary region the plan names must have been reached
     missing = [o for o in plan.get("required_obligations", []) if obligations.get(o, 0) == 0]
-    if missing:
+    if missing and not violations:
+        # (with violations present, e.g. shards abandoned because the code under test hangs, the
+        # violations are what has to be reported)
         raise ToolError("driver obligations never reached: %s" % ", ".join(missing))
 
     for kid, (k, n) in sorted(known_hits.items()):
